@@ -18,8 +18,10 @@ type UsageStat = gdisk.UsageStat
 // unlimited is what a root without a configured capacity reports (a constant, so runs replay).
 const unlimited = uint64(1) << 40
 
+//go:norace
 func Usage(path string) (*UsageStat, error) { return UsageWithContext(context.Background(), path) }
 
+//go:norace
 func UsageWithContext(_ context.Context, path string) (*UsageStat, error) {
 	simrt.Yield("disk.Usage")
 	if _, err := os.Stat(path); err != nil {
